@@ -1,6 +1,7 @@
 """C03 - symbol tables enumerate exactly; name and hash lookups are complete and sound."""
 from symx.api import H
 from spec import enc
+from harness.elfkit import stream_length
 from spec import elf_layout as L
 from spec import registry as REG
 
@@ -21,6 +22,7 @@ class _Elf:
     def __init__(self, ctx, stream, cls, little, machine='EM_X86_64'):
         S = ctx.lib('elf.structs')
         self.stream = stream
+        self.stream_len = stream_length(stream)
         self.elfclass = cls
         self.little_endian = little
         self.structs = S.ELFStructs(little_endian=little, elfclass=cls)
